@@ -526,7 +526,15 @@ def as_completed(
               f'Worker {task.server_name} disconnected.',
           )
           assert task.state is not None
-          task.state.set_exception(TimeoutError(f'{task.server_name} timeout.'))
+          try:
+            task.state.set_exception(
+                TimeoutError(f'{task.server_name} timeout.')
+            )
+          except futures.InvalidStateError:
+            # The call completed in the meantime, its outcome is collected in
+            # the next round.
+            still_running.append(task)
+            continue
           tasks.append(task.set(_exc=None))
         else:
           still_running.append(task)
